@@ -32,11 +32,12 @@ class Unit:
     run: Callable  # run(ctx) -> None
     doc: str = ""
     top_level: bool = True  # False: helper-level facts (a failure is UNDECIDED, not a violation)
+    fallback: Optional[dict] = None  # bounded native stand-in used when the changed code left the verifier's reach
 
 
-def unit(uid, prop, function="", doc="", top_level=True):
+def unit(uid, prop, function="", doc="", top_level=True, fallback=None):
     def deco(f):
-        UNITS[uid] = Unit(uid, prop, function, f, doc or (f.__doc__ or "").strip(), top_level)
+        UNITS[uid] = Unit(uid, prop, function, f, doc or (f.__doc__ or "").strip(), top_level, {"mirror": fallback} if isinstance(fallback, str) else fallback)
         return f
 
     return deco
@@ -104,12 +105,11 @@ class Ctx:
         m = self.m
         lst = self.sym(name, ("list", elem_ty))
         ln, at = m.lst_funcs(elem_ty)
-        S = SV(z3.Const(name + "!set", m.sort(("set", elem_ty))), ("set", elem_ty))
         i, j = z3.Int(f"i!{name}"), z3.Int(f"j!{name}")
         x = z3.Const(f"x!{name}", m.sort(elem_ty))
         st.assume(z3.ForAll([i, j], z3.Implies(z3.And(0 <= i, i < j, j < ln(lst.term)), at(lst.term, i) != at(lst.term, j))))
-        st.assume(z3.ForAll([i], z3.Implies(z3.And(0 <= i, i < ln(lst.term)), z3.Select(S.term, at(lst.term, i))), patterns=[at(lst.term, i)]))
-        st.assume(z3.ForAll([x], z3.Implies(z3.Select(S.term, x), z3.Exists([i], z3.And(0 <= i, i < ln(lst.term), at(lst.term, i) == x))), patterns=[z3.Select(S.term, x)]))
+        # the set is *defined* from its enumeration (a lambda term, no array constant and no quantified axioms)
+        S = SV(z3.Lambda([x], z3.Exists([i], z3.And(0 <= i, i < ln(lst.term), at(lst.term, i) == x))), ("set", elem_ty))
         return st.alloc(SetObj(sv=S, enum=lst)), lst, S
 
     def assume_note(self, text):
@@ -204,6 +204,21 @@ def discharge(ctx: Ctx, ob: Obligation, use_cvc5_always=False, cheap=False) -> d
         return rec
     s.add(z3.Not(ob.goal))
     r = guarded_check(s, ctx.timeout_ms if not cheap else min(ctx.timeout_ms, 3000))
+    if r == z3.unknown and "incomplete" in s.reason_unknown():
+        # z3 gave up without exhausting its budget (E-matching found no contradiction under this instantiation order):
+        # small portfolio of random seeds; `unsat` from any run is a proof
+        for seed in range(1, 9):
+            s2 = _mk_solver(ctx, ctx.timeout_ms)
+            s2.set("random_seed", seed)
+            s2.set("smt.random_seed", seed)
+            for h in ob.hyps:
+                s2.add(h)
+            s2.add(z3.Not(ob.goal))
+            r2 = guarded_check(s2, ctx.timeout_ms)
+            if r2 != z3.unknown:
+                r, s = r2, s2
+                rec["portfolio_seed"] = seed
+                break
     if r == z3.unknown and not cheap:
         # one retry with a three times larger budget before the obligation counts as not re-established
         rec["reason_unknown"] = s.reason_unknown()
